@@ -258,6 +258,9 @@ RetGuards(c, e) ==
                        \E w \in W : w.k = "t.accept" /\ \E si \in SeqSet(w.fan) : si \in DOMAIN S /\ S[si].st # "live") }
       [] p.op = "CreateSub" ->
         { G("C10", e.code = "NOT_FOUND" => None \in TopicLookups(W, p.topic)),
+          \* refused for its topic or project: nothing is created (no other create of the name in flight)
+          G("C10", (Solo(c) /\ e.code \in {"NOT_FOUND", "INVALID_ARGUMENT"}) =>
+                       ~\E w \in W : w.k = "m.cs" /\ w.name = p.name /\ w.ok),
           G("C10", e.code = "ALREADY_EXISTS" => \E w \in W : w.k = "m.cs" /\ w.name = p.name /\ ~w.ok),
           \* ... and not because of an incarnation whose deletion an EARLIER response already reported
           G("C10", e.code = "ALREADY_EXISTS" =>
@@ -437,6 +440,28 @@ HttpAnswered(e) ==
     IF LastAnswer(si, e.m) = -(100 + e.attempt) /\ S[si].st = "live" /\ e.m \in LeasedMsgs(S[si])
     THEN Put(httpLast, <<si, e.m>>, e.code) ELSE httpLast
 
+\* Control messages of open streams and the actor turns that carry them out.
+CtrlWaiting(c, j, ids, isAck) ==
+    IF isAck THEN pend[c].ctrl[j].acks = ids /\ ~pend[c].ctrl[j].doneA
+    ELSE pend[c].ctrl[j].mods = ids /\ ~pend[c].ctrl[j].doneM
+CtrlDone(sub, ids, isAck) ==
+    LET cs == {c \in DOMAIN pend : pend[c].e.op = "StreamOpen" /\ pend[c].e.sub = sub
+                                     /\ \E j \in 1..Len(pend[c].ctrl) : CtrlWaiting(c, j, ids, isAck)} IN
+    IF cs = {} THEN pend ELSE
+    LET c == CHOOSE x \in cs : TRUE
+        j == CHOOSE y \in 1..Len(pend[c].ctrl) :
+                 CtrlWaiting(c, y, ids, isAck) /\ \A z \in 1..(y - 1) : ~CtrlWaiting(c, z, ids, isAck) IN
+    IF isAck THEN [pend EXCEPT ![c].ctrl[j].doneA = TRUE] ELSE [pend EXCEPT ![c].ctrl[j].doneM = TRUE]
+\* At rest: every well-formed control message sent on a stream that is still open (no malformed
+\* message before it, subscription alive) has been carried out.
+CtrlPartDone(c, isAck) ==
+    LET es == pend[c].ctrl IN
+    \A j \in 1..Len(es) : (\A k \in 1..j : ~es[k].mal) => (IF isAck THEN es[j].doneA ELSE es[j].doneM)
+StreamAlive(c) ==
+    LET p == pend[c].e IN
+    /\ p.op = "StreamOpen" /\ p.sub \in DOMAIN smap /\ S[smap[p.sub]].st = "live"
+    /\ smap[p.sub] \in SubLookups(Win(c), p.sub)
+
 LateGuards(e) ==
     { G("BIND", e.t >= now),
       G("C04", JudgeLate =>
@@ -543,6 +568,12 @@ EvGuards(e) ==
                      /\ p.sub \in DOMAIN smap /\ S[smap[p.sub]].st = "live"
                      /\ smap[p.sub] \in SubLookups(Win(c), p.sub))
                     => (S[smap[p.sub]].queue = <<>> /\ S[smap[p.sub]].inbox = <<>>)) : c \in DOMAIN pend }
+            \cup
+            \* C07: control messages sent on an open StreamingPull get processed (C05 / C03 for a
+            \* deadline modification that is not applied: the delivery expires although the client
+            \* extended it)
+            { G("C07", \A c \in DOMAIN pend : StreamAlive(c) => CtrlPartDone(c, TRUE)),
+              G("C03,C05,C07", \A c \in DOMAIN pend : StreamAlive(c) => CtrlPartDone(c, FALSE)) }
       [] e.k = "hang" ->
             { G("C07", FALSE) } \cup
             (IF e.c \in DOMAIN pend /\ pend[e.c].e.op \in {"StreamOpen", "Pull"}
@@ -572,6 +603,17 @@ EvGuards(e) ==
               G("C14", C14_RegistryExact),
               G("C16", C16_Attached) }
       [] OTHER -> { G("BIND", FALSE) }
+
+\* C16: "no lost message" when a request was abandoned.  A turn of a subscription's actor that
+\* loses a message (conservation, an outstanding delivery that vanishes) while a request to that
+\* subscription - or a publish - was abandoned earlier in the history also counts for C16.
+AbandonedNear(si) ==
+    \E g \in gone : \/ (g.op \in {"Pull", "StreamOpen", "Ack", "ModAck"} /\ g.sub = S[si].name)
+                     \/ g.op = "Publish"
+Retag16(e, gs) ==
+    IF e.k \in {"s.post", "s.pull", "s.ack", "s.mod", "s.expire"} /\ SiKnown(e) /\ AbandonedNear(e.si)
+    THEN {IF g[1] \in {"C01", "C04", "C01,C04,C05"} THEN <<g[1] \o ",C16", g[2]>> ELSE g : g \in gs}
+    ELSE gs
 
 LightNb(si) == IF si \in DOMAIN lightNb THEN lightNb[si] ELSE 0
 LightNl(si) == IF si \in DOMAIN lightNl THEN lightNl[si] ELSE 0
@@ -654,8 +696,16 @@ EvApply(e) ==
                  THEN [pend EXCEPT ![e.c].ctrl = Append(@, [t |-> e.t, acks |-> e.acks, mods |-> e.mods, secs |-> e.secs,
                                                                mal |-> (e.bad > 0 \/ e.rsub # "" \/ e.rmax > 0 \/ e.rmaxb > 0
                                                                           \/ Len(e.secs) # Len(e.mods)
-                                                                          \/ \E i \in 1..Len(e.secs) : e.secs[i] < 0)])]
+                                                                          \/ \E i \in 1..Len(e.secs) : e.secs[i] < 0),
+                                                               \* processed by the subscription's actor yet?  (nothing to do for
+                                                               \* an empty part or a message the client could not send any more)
+                                                               doneA |-> (e.acks = <<>> \/ ~e.open),
+                                                               doneM |-> (e.mods = <<>> \/ ~e.open)])]
                  ELSE pend
+           \* an acknowledge / modify turn of the actor carries out the oldest control message with
+           \* exactly these ack ids that is still waiting on a stream of that subscription
+           [] e.k = "s.ack" /\ SiKnown(e) -> CtrlDone(S[e.si].name, e.acks, TRUE)
+           [] e.k = "s.mod" /\ SiKnown(e) -> CtrlDone(S[e.si].name, [i \in 1..Len(e.mods) |-> e.mods[i].ack], FALSE)
            [] OTHER -> pend
     /\ tok' =
          IF e.k = "ret" /\ pend[e.c].e.op \in {"ListTopics", "ListSubs", "ListTopicSubs"}
@@ -715,7 +765,7 @@ TraceNext ==
        THEN DoReset(e) /\ UNCHANGED stats
        ELSE IF skip
        THEN UNCHANGED <<coreVars, skip, hdr, pend, tok, content, ptime, gone, httpLast, delT, obsDel, lightNb, lightNl, stats>>
-       ELSE LET gs == IF Light THEN LightGuards(e) ELSE LateGuards(e) \cup EvGuards(e)
+       ELSE LET gs == IF Light THEN LightGuards(e) ELSE Retag16(e, LateGuards(e) \cup EvGuards(e))
                 bad == Fatal(gs)
             IN IF bad = {}
                THEN /\ IF Light THEN LightApply(e) ELSE (EvApply(e) /\ UNCHANGED <<lightNb, lightNl>>)
